@@ -168,6 +168,7 @@ func c14Opts(tier string, spec world.Spec) hOpts {
 	if tier == "thorough" {
 		o.MaxSessions = 3
 		o.Pairs = false
+		o.MaxDev = 1
 	}
 	return o
 }
